@@ -75,6 +75,8 @@ def opt_cases(E, st, v, fid):
         a = st.fork()
         ity = v[1]['args'][0] if v[1]['args'] else None
         item = E.mk_unknown(a, ity, v[2] + (1, 0), E.gs_of(st, fid))
+        if getattr(E, 'track_agree', False):
+            E.note_loaded(a, v[2], item)
         a.log('variant', v[2], 1)
         st.log('variant', v[2], 0)
         return [(st, None), (a, ('some', item))]
@@ -706,6 +708,10 @@ def ad_flatten_next(E, st, ptr, v, fid, item_ty=None):
                 if E.sensitive(s2, c[1]):
                     raise Unproven('flatten over slot storage')
                 item = E.mk_unknown(s2, item_ty, ('flat',), E.gs_of(st, fid))
+                if getattr(E, 'track_agree', False):
+                    src = c[1]
+                    if src[0] == 'ref' and src[2][0] == 'opq' and isinstance(src[2][1], tuple) and src[2][1][:1] == ('elem',):
+                        E.note_loaded(s2, src[2][1], item)
                 out.append(('ret', s2, some(item)))
     return out
 
